@@ -1,7 +1,7 @@
 (* C08 - Buffers never exceed capacity; ordered buffers release jobs in discipline order. *)
 From Coq Require Import List ZArith Bool.
 From JSL Require Import Base.Res SM.Types SM.Util SM.Handler SM.Step SM.Middleware SM.Inv SM.Example
-  SMP.Reflect SMP.StepInv SMP.Main.
+  SMP.Reflect SMP.StepInv SMP.Main Gen.Kernels Gen.KernelsEq.
 Import ListNotations.
 
 (* no buffer (standalone, pre/internal/post, AGV) ever holds more jobs than its configured capacity:
@@ -23,3 +23,11 @@ Print Assumptions C08_capacity_micro_states.
 
 Example C08_hypothesis_satisfiable : wfs_b ex_inst ex_state = true.
 Proof. vm_compute. reflexivity. Qed.
+
+(* The release rule of the model IS the implementation's: regenerated from
+   buffer_type_utils.is_correct_position_for_buffer_type on every run. *)
+Theorem C08_release_rule_is_the_code's :
+  forall (p len : nat) ty,
+    is_correct_position (Some p) len ty = Ok (gen_is_correct_position (Z.of_nat p) (Z.of_nat len) ty).
+Proof. exact gen_is_correct_position_eq. Qed.
+Print Assumptions C08_release_rule_is_the_code's.
